@@ -608,6 +608,7 @@ func (ex *Exec) loopHead(li *loopInfo) {
 	}
 	// vacuity guard: invariant (and path) satisfiable at loop head
 	ex.vacuity(fmt.Sprintf("loop#%d head reachable", li.ordinal), entryPC, firstPos(li.head))
+	ex.fireEvent(fmt.Sprintf("loophead %d", li.ordinal))
 	// heaps first touched inside the loop must also be havocked: remember to re-check after the body (see backEdge)
 }
 
@@ -630,6 +631,14 @@ func (ex *Exec) backEdge(from, to *ssa.BasicBlock, cond string) {
 				ex.eng.errorf("internal: heap %s modified in loop #%d of %s but not in its havoc set", h, li.ordinal, funcKey(ex.fn))
 			}
 		}
+	}
+	{
+		// "at backedge k assert/set ..." clauses see the state at the end of an iteration
+		savePC := ex.curPC
+		ex.curPC = cond
+		ex.fireEvent(fmt.Sprintf("backedge %d", li.ordinal))
+		ex.curPC = savePC
+		st = ex.curSt
 	}
 	env := ex.loopEnv(li, st)
 	pos := firstPos(to)
@@ -707,6 +716,10 @@ func (ex *Exec) fireSite(cl *Clause, sel string, in ssa.Instruction) {
 	pos := ex.fn.Pos()
 	if in != nil {
 		pos = in.Pos()
+	} else if ex.curBlock != nil && sel != "entry" && sel != "return" {
+		if p := firstPos(ex.curBlock); p != token.NoPos {
+			pos = p
+		}
 	}
 	env := &Env{ex: ex, st: ex.curSt, old: r.entrySt, vars: map[string]Val{}, fn: ex.fn, pkg: ex.fn.Pkg.Pkg, at: pos, where: "site " + sel}
 	if c, ok := in.(ssa.CallInstruction); ok {
@@ -770,6 +783,18 @@ func (ex *Exec) siteMatches(sel string, in ssa.Instruction) bool {
 			}
 			a, ok := st.Addr.(*ssa.Alloc)
 			return ok && a.Comment == name
+		case "fieldstore":
+			// a store to the struct field called <name> (of any object)
+			st, ok := i.(*ssa.Store)
+			if !ok {
+				return false
+			}
+			fa, ok := st.Addr.(*ssa.FieldAddr)
+			if !ok {
+				return false
+			}
+			stt, ok := deref(fa.X.Type()).Underlying().(*types.Struct)
+			return ok && stt.Field(fa.Field).Name() == name
 		}
 		return false
 	}
